@@ -14,7 +14,7 @@ from collections import Counter, defaultdict
 from sim import core
 from sim.jitsim import parent as P
 
-STRETCH_CLASSES = ["open:lock", "stat:lock", "stat:failed", "replace:lock", "dlopen:so", "rename:tmp", "codegen:", "spawn-compile-end:obj", "spawn-link:so",
+STRETCH_CLASSES = ["stat:dir", "mkdir:dir", "open:lock", "stat:lock", "stat:failed", "replace:lock", "dlopen:so", "rename:tmp", "codegen:", "spawn-compile-end:obj", "spawn-link:so",
                    "spawn-link-end:so", "open:marker", "write:marker", "close:marker", "chdir:dir"]
 TRIGGER_CLASSES = ["open:lock", "replace:lock", "replace:lock", "close:marker", "open:marker", "spawn-link-end:so",
                    "spawn-link:so", "codegen:", "unlink:lock", "rename:tmp"]
@@ -170,6 +170,8 @@ def gen_scenario(seed, mode, thorough, golden):
     scn = {"seed": seed, "mode": mode, "procs": procs, "pre": [], "faults": [], "stretch": [], "late": []}
     if rng.random() < 0.3:
         scn["cache_spelling"] = {str(pr["name"]): rng.choice(["symlink", "relative", "abs"]) for pr in procs}
+    if rng.random() < 0.15:
+        scn["fresh_cache_dir"] = True  # honoured only in runs without pre-state
     if rng.random() < 0.12:
         # one process used the same spelling of the cache directory before, when it still meant
         # another directory (re-pointed symbolic link / relative path and a chdir)
@@ -393,6 +395,10 @@ def _transforms(scn):
         s = copy.deepcopy(scn)
         del s["decoy_first"]
         yield "no decoy phase", s
+    if scn.get("fresh_cache_dir"):
+        s = copy.deepcopy(scn)
+        del s["fresh_cache_dir"]
+        yield "existing cache directory", s
     if scn.get("coarse_mtime"):
         s = copy.deepcopy(scn)
         del s["coarse_mtime"]
